@@ -153,3 +153,116 @@ theorem length_le_byteLen (t : Text) : t.length ≤ byteLen t := by
   | cons c t ih => have := c.w_pos; simp only [List.length_cons, byteLen]; omega
 
 end TantivyModel.Snip
+
+namespace TantivyModel.Snip
+open TantivyModel.Tok
+
+/-! ### what the highlights are: exactly the term tokens of the fragment, in stream order -/
+
+theorem add_hl_eq (f : Frag) (t : STok) :
+    (f.add t).hl = f.hl ++ (if t.score.isSome then [(t.from_, t.to)] else []) := by
+  unfold Frag.add
+  cases t.score <;> simp
+
+/-- every highlight is the range of a token that is a query term -/
+def P4 (all : List STok) (s : Text) (f : Frag) (ts : List STok) : Prop :=
+  P1 s f ts ∧ (∀ t ∈ ts, t ∈ all) ∧
+  ∀ h ∈ f.hl, ∃ t ∈ all, t.score.isSome = true ∧ h = (t.from_, t.to)
+
+theorem P4_step (all : List STok) (s : Text) (g f : Frag) (t : STok) (ts : List STok)
+    (h : P4 all s f (t :: ts)) (hg : ∀ h ∈ g.hl, ∃ t ∈ all, t.score.isSome = true ∧ h = (t.from_, t.to))
+    (h1 : P1 s (g.add t) ts) : P4 all s (g.add t) ts := by
+  refine ⟨h1, fun x hx => h.2.1 x (List.mem_cons_of_mem _ hx), ?_⟩
+  intro x hx
+  rw [add_hl_eq, List.mem_append] at hx
+  rcases hx with hx | hx
+  · exact hg x hx
+  · split at hx
+    · rename_i hs
+      simp only [List.mem_singleton] at hx
+      exact ⟨t, h.2.1 t List.mem_cons_self, hs, hx⟩
+    · simp at hx
+
+theorem search_P4 (s : Text) (M : Nat) (ts : List STok) (h : SContract s ts) :
+    ∃ frags, searchFragments M ts = some frags ∧
+      ∀ g ∈ frags, FI s g ∧ ∀ h ∈ g.hl, ∃ t ∈ ts, t.score.isSome = true ∧ h = (t.from_, t.to) := by
+  obtain ⟨frags, e, hf⟩ := searchAux_inv M (P4 ts s) (fun f t r h => P1_safe s f t r h.1)
+    (fun f t r h _ => P4_step ts s f f t r h h.2.2 (P1_add s f t r h.1))
+    (fun f t r h _ => P4_step ts s (Frag.new t.from_) f t r h (by simp [Frag.new]) (P1_cut s f t r h.1))
+    ts (Frag.new 0) ⟨P1_init s ts h, fun _ h => h, by simp [Frag.new]⟩
+  exact ⟨frags, e, fun g hg => by obtain ⟨_, h⟩ := hf g hg; exact ⟨h.1.1, h.2.2⟩⟩
+
+/-- with tokens that do not overlap (`a.to ≤ b.from` in stream order) the raw highlights are
+sorted and pairwise disjoint -/
+def P5 (s : Text) (f : Frag) (ts : List STok) : Prop :=
+  P1 s f ts ∧ f.hl.Pairwise (fun a b => a.2 ≤ b.1) ∧ (∀ h ∈ f.hl, ∀ t ∈ ts, h.2 ≤ t.from_) ∧
+  ts.Pairwise (fun a b => a.to ≤ b.from_)
+
+theorem P5_step (s : Text) (g f : Frag) (t : STok) (ts : List STok) (h : P5 s f (t :: ts))
+    (hg1 : g.hl.Pairwise (fun a b => a.2 ≤ b.1)) (hg2 : ∀ h ∈ g.hl, ∀ t' ∈ t :: ts, h.2 ≤ t'.from_)
+    (h1 : P1 s (g.add t) ts) : P5 s (g.add t) ts := by
+  obtain ⟨_, _, _, hp⟩ := h
+  rw [List.pairwise_cons] at hp
+  refine ⟨h1, ?_, ?_, hp.2⟩
+  · rw [add_hl_eq, List.pairwise_append]
+    refine ⟨hg1, by split <;> simp, ?_⟩
+    intro a ha b hb
+    split at hb
+    · simp only [List.mem_singleton] at hb; subst hb
+      exact hg2 a ha t List.mem_cons_self
+    · simp at hb
+  · intro x hx t' ht'
+    rw [add_hl_eq, List.mem_append] at hx
+    rcases hx with hx | hx
+    · exact hg2 x hx t' (List.mem_cons_of_mem _ ht')
+    · split at hx
+      · simp only [List.mem_singleton] at hx; subst hx; exact hp.1 t' ht'
+      · simp at hx
+
+theorem search_P5 (s : Text) (M : Nat) (ts : List STok) (h : SContract s ts)
+    (hd : ts.Pairwise (fun a b => a.to ≤ b.from_)) :
+    ∃ frags, searchFragments M ts = some frags ∧
+      ∀ g ∈ frags, FI s g ∧ g.hl.Pairwise (fun a b => a.2 ≤ b.1) := by
+  obtain ⟨frags, e, hf⟩ := searchAux_inv M (P5 s) (fun f t r h => P1_safe s f t r h.1)
+    (fun f t r h _ => P5_step s f f t r h h.2.1 h.2.2.1 (P1_add s f t r h.1))
+    (fun f t r h _ => P5_step s (Frag.new t.from_) f t r h (by simp [Frag.new]) (by simp [Frag.new])
+      (P1_cut s f t r h.1))
+    ts (Frag.new 0) ⟨P1_init s ts h, by simp [Frag.new], by simp [Frag.new], hd⟩
+  exact ⟨frags, e, fun g hg => by obtain ⟨_, h⟩ := hf g hg; exact ⟨h.1.1, h.2.1⟩⟩
+
+end TantivyModel.Snip
+
+namespace TantivyModel.Tok
+
+/-- a filter keeps any per-token key that it does not assign non-decreasing -/
+theorem apply_key_mono (f : Filter) (key : Token → Nat)
+    (hkey : ∀ t, ∀ t' ∈ f.onToken t, key t' = key t) : ∀ ts : List Token,
+    ts.Pairwise (fun a b => key a ≤ key b) → (f.apply ts).Pairwise (fun a b => key a ≤ key b) := by
+  intro ts
+  induction ts with
+  | nil => intro _; simp [Filter.apply]
+  | cons a l ih =>
+    intro h
+    rw [List.pairwise_cons] at h
+    obtain ⟨h1, h2⟩ := h
+    simp only [Filter.apply, List.flatMap_cons]
+    rw [List.pairwise_append]
+    refine ⟨?_, ih h2, ?_⟩
+    · apply pairwise_of_forall_mem
+      intro x hx y hy
+      rw [hkey a x hx, hkey a y hy]; exact Nat.le_refl _
+    · intro x hx y hy
+      simp only [List.mem_flatMap] at hy
+      obtain ⟨b, hb, hy⟩ := hy
+      rw [hkey a x hx, hkey b y hy]
+      exact h1 b hb
+
+theorem chain_to_mono (fs : List Filter) : ∀ ts : List Token,
+    ts.Pairwise (fun a b => a.to ≤ b.to) → (applyChain fs ts).Pairwise (fun a b => a.to ≤ b.to) := by
+  induction fs with
+  | nil => intro ts h; exact h
+  | cons f fs ih =>
+    intro ts h
+    exact ih _ (apply_key_mono f (fun t => t.to) (fun t t' ht' => (onToken_offsets f t t' ht').2.1) ts h)
+
+end TantivyModel.Tok
